@@ -67,6 +67,36 @@ class Ctx:
             return True
         return False
 
+    def on_store(self, tm) -> bool:
+        return contains(tm, lambda s: s[0] == "attr" and s[2] == "store" and s[1] == ("self", TS))
+
+    def key_lookups(self, p):
+        """events on path p that look a key up in the store: (event, 'pop'|'load'|'get', present?) where present
+        is True/False when the path decides it (KeyError raised or not, result tested against None) else None"""
+        out = []
+        for e in p.events:
+            if e.kind == "call" and e.attrname == "pop" and e.recv is not None and self.on_store(e.recv) and not e.targets and e.args:
+                if len(e.args) >= 2:
+                    pres = None
+                    for c, v, _, _ in p.conds:
+                        if contains(c, lambda s_: s_ == e.result):
+                            pres = v if c == e.result else (not v if c in (("unop", "not", e.result), ("cmp", "is", e.result, const(None))) else
+                                                             (v if c == ("cmp", "is not", e.result, const(None)) else pres))
+                    out.append((e, "pop", pres))
+                else:
+                    out.append((e, "pop", e.raised is None))
+            elif e.kind == "load" and e.target is not None and e.target[0] == "item" and e.target[1][0] == "item" and self.on_store(e.target[1]):
+                out.append((e, "load", e.raised is None))
+            elif e.kind == "call" and e.attrname == "get" and e.recv is not None and e.recv[0] == "item" and self.on_store(e.recv) and e.args:
+                pres = None
+                for c, v, _, _ in p.conds:
+                    if c == ("cmp", "is", e.result, const(None)) or c == ("unop", "not", e.result):
+                        pres = not v
+                    elif c == ("cmp", "is not", e.result, const(None)) or c == e.result:
+                        pres = v
+                out.append((e, "get", pres))
+        return out
+
     def timer_target(self):
         """the TimedStore method armed by call_later (the expiry routine) and the arming event"""
         refresh = self.m(TS, "refresh")
@@ -209,10 +239,17 @@ def cancel_on_removal(cx: Ctx, rule: str):
             continue  # the firing timer itself: nothing to cancel
         for p in cx.eng.paths(fi, recv=TS):
             run.paths += 1
-            removed = []  # terms of stored tuples taken out on this path
+            removed = []  # terms of stored tuples taken out (or overwritten) on this path
             for e in p.events:
                 if e.kind == "call" and e.attrname == "pop" and cx._is_store_mutation(e) and e.raised is None and e.result is not None:
                     removed.append((e, ("item", e.result, const(hidx))))
+            # in-place replacement: value looked up, then the same key written again
+            for e, kind, pres in cx.key_lookups(p):
+                if kind in ("load", "get") and pres is not False:
+                    key = e.target[2] if kind == "load" else e.args[0]
+                    val = e.target if kind == "load" else e.result
+                    if any(w.kind == "store" and cx._is_store_mutation(w) and w.target[2] == key and w.seq > e.seq for w in p.events):
+                        removed.append((e, ("item", val, const(hidx))))
             # bulk removal: every value visited by `for k, v in <store>[addr].items()` is dropped by clear()
             cleared = [e for e in p.events if e.kind == "call" and e.attrname == "clear" and cx._is_store_mutation(e)
                        and e.recv is not None and e.recv[0] == "item"]
@@ -275,8 +312,10 @@ def arming(cx: Ctx, rule: str):
         for known in (True, False):
             hits = []
             for p in paths:
-                pops = [e for e in p.events if e.kind == "call" and e.attrname == "pop" and cx._is_store_mutation(e)]
-                if pops and (pops[0].raised is None) != known:
+                lk = cx.key_lookups(p)
+                if lk and lk[0][2] is not None and lk[0][2] != known:
+                    continue
+                if not lk and any(e.kind == "caught" and e.value == "KeyError" for e in p.events) == known:
                     continue
                 try:
                     okc = True
@@ -295,7 +334,8 @@ def arming(cx: Ctx, rule: str):
                     continue
                 if tv == 0xFFFFFF:
                     ok = not timers and len(sts) == 1 and const(None) in sts[0].value[1]
-                    msg = f"infinite TTL: {len(timers)} timer(s) armed (must be none, handle stored as None)"
+                    msg = (f"infinite TTL: {len(timers)} timer(s) armed, value stored {show(sts[0].value)[:80] if sts else '-'} "
+                           "(no timer may be armed and the handle slot must be None - a kept old handle is a live stale timer)")
                 else:
                     ok = len(timers) == 1 and len(sts) == 1
                     msg = f"TTL {tv}: {len(timers)} timer(s) armed"
@@ -327,10 +367,16 @@ def reject_before_record(cx: Ctx, rule: str):
         news = [e for e in p.events if e.kind == "call" and not e.sched and cx.slot_role(e.fterm) == "callback_new"]
         dnews = [e for e in p.events if e.kind == "call" and e.sched and cx.slot_role(e.cb) == "callback_new"]
         sts = [e for e in p.events if e.kind == "store" and cx._is_store_mutation(e)]
-        pops = [e for e in p.events if e.kind == "call" and e.attrname == "pop" and cx._is_store_mutation(e)]
-        is_new = (bool(pops) and pops[0].raised is not None) or (not pops and any(e.kind == "caught" and e.value == "KeyError" for e in p.events))
-        if not pops and not is_new:
-            raise AnalysisError(f"{refresh.qual}: cannot tell new entries from refreshed ones (no pop of the old value)")
+        lk = cx.key_lookups(p)
+        if lk and lk[0][2] is not None:
+            is_new = not lk[0][2]
+        elif any(e.kind == "caught" and e.value == "KeyError" for e in p.events):
+            is_new = True
+        elif lk:
+            raise AnalysisError(f"{refresh.qual}: cannot tell new entries from refreshed ones (lookup result is not tested)")
+        else:
+            raise AnalysisError(f"{refresh.qual}: cannot tell new entries from refreshed ones (no lookup of the old value)")
+        pops = [e for e, k, pres in lk]
         if is_new and p.outcome[0] != "raise":
             seen += 1
             ok = len(news) == 1 and not dnews and len(sts) == 1 and news[0].seq < sts[0].seq
